@@ -27,7 +27,7 @@ for sid, (dc, t, dm, checks) in sorted(f.items()):
         "confirmed": {"demo_on_clean_tree_exit": dc, "repository_tests_with_change": t, "demo_with_change_exit": dm,
             "how": "tools/evalseed.sh in a scratch worktree of /repo (git worktree add; git apply patch.diff; go build ./... && go test -vet=off -count=1 ./...; bash demo.sh <worktree>)"},
     }
-    missed = all(c["exit"] == 0 for c in checks.values())
+    missed = all(c["exit"] != 1 for c in checks.values())
     if missed:
         meta["first_pass_quick_tier"] = {k: {"exit": v["exit"], "first_key": ""} for k, v in checks.items()}
         if sid in a:
